@@ -110,9 +110,80 @@ func runC09(r *Run, verifDir string) {
 			}
 		}
 	}
+	// values that carry the request's option: the header field itself, or the field with its zero value defaulted
+	// (phi of the field and a constant, cmp.Or(field, constant), conversions)
+	optVal := map[ssa.Value]bool{}
+	for changed := true; changed; {
+		changed = false
+		allInstrs(hr, func(in ssa.Instruction) {
+			v, ok := in.(ssa.Value)
+			if !ok || optVal[v] {
+				return
+			}
+			is := false
+			switch x := in.(type) {
+			case *ssa.UnOp:
+				is = reqField(x, "Header", "BatchErrorContinuationOption")
+			case *ssa.Phi:
+				is = true
+				any := false
+				for _, e := range x.Edges {
+					if optVal[e] {
+						any = true
+					} else if _, isC := e.(*ssa.Const); !isC {
+						is = false
+					}
+				}
+				is = is && any
+			case *ssa.Call:
+				if id := callID(&x.Call); id.pkg == "cmp" && id.name == "Or" {
+					is = true
+					any := false
+					for _, a := range x.Call.Args {
+						if sl, ok := a.(*ssa.Slice); ok {
+							// variadic: the backing array's stores
+							_ = sl
+						}
+						if optVal[a] {
+							any = true
+						}
+					}
+					// variadic cmp.Or(vals ...T): the arguments are stored into a fresh array
+					if len(x.Call.Args) == 1 {
+						if sl, ok := x.Call.Args[0].(*ssa.Slice); ok {
+							if al, ok := sl.X.(*ssa.Alloc); ok {
+								for _, ref := range *al.Referrers() {
+									if ia, ok := ref.(*ssa.IndexAddr); ok {
+										for _, r2 := range *ia.Referrers() {
+											if st, ok := r2.(*ssa.Store); ok {
+												if optVal[st.Val] {
+													any = true
+												} else if _, isC := st.Val.(*ssa.Const); !isC {
+													is = false
+												}
+											}
+										}
+									}
+								}
+							}
+						}
+					}
+					is = is && any
+				}
+			case *ssa.Convert:
+				is = optVal[x.X]
+			case *ssa.ChangeType:
+				is = optVal[x.X]
+			}
+			if is {
+				optVal[v] = true
+				changed = true
+			}
+		})
+	}
 	allInstrs(hr, func(in ssa.Instruction) {
 		bo, ok := in.(*ssa.BinOp)
-		if !ok || bo.Op != token.EQL || !reqField(bo.X, "Header", "BatchErrorContinuationOption") {
+		if !ok || (bo.Op != token.EQL && bo.Op != token.NEQ) || !optVal[bo.X] {
 			return
 		}
 		if k, ok := constIntVal(bo.Y); !ok || k != undoConst {
@@ -124,6 +195,9 @@ func runC09(r *Run, verifDir string) {
 				continue
 			}
 			tb := iff.Block().Succs[0]
+			if bo.Op == token.NEQ {
+				tb = iff.Block().Succs[1]
+			}
 			retErr := false
 			for _, in2 := range tb.Instrs {
 				if ret, ok := in2.(*ssa.Return); ok && !isNilConst(ret.Results[1]) {
